@@ -11,6 +11,7 @@ One translation unit per program (precompiled runtime header, -O0): driver.cpp i
 header(s), so a successful driver build also is the C07 build check; only when it fails the header(s) are
 compiled alone to tell an emitter defect from a driver problem."""
 import fcntl
+import json
 import os
 import re
 import shutil
@@ -43,6 +44,10 @@ PCH_TEXT = """// precompiled: standard headers the emitted code includes + refer
 #include "%(rt)s/driver/drv.hpp"
 #include "%(rt)s/gtest/gtest.h"
 """
+
+
+with open(__file__.replace(".pyc", ".py"), "rb") as _fh:
+    _SELF_HASH = sha(_fh.read())
 
 
 def normname(s):
@@ -83,7 +88,7 @@ def _blank_literals(text):
             j = n if j < 0 else j + 2
             out.append(re.sub(r"[^\n]", " ", text[i:j]))
             i = j
-        elif c == '"' or (c == "'" and not (i > 0 and text[i - 1].isalnum() and i + 1 < n and text[i + 1].isalnum() and text[i - 1].isdigit())):
+        elif c == '"' or (c == "'" and not (i > 0 and text[i - 1].isdigit() and i + 1 < n and text[i + 1].isalnum())):  # 1'000 is no literal
             q = c
             j = i + 1
             while j < n and text[j] != q:
@@ -407,6 +412,10 @@ class Cpp(Lang):
     _tc = None
     run_timeout = 120      # seconds per driver / test process (a hang counts as a crash of the running op)
 
+    def key(self, outdir, case, what):
+        # the driver generator lives in this file, not under runtimes/cpp: make it part of the memo key
+        return sha(Lang.key(self, outdir, case, what) + "|" + _SELF_HASH)
+
     def toolchain(self):
         if Cpp._tc is None:
             r = run([CXX, "--version"], timeout=60)
@@ -416,7 +425,7 @@ class Cpp(Lang):
 
     # ---- shared pre-built artefacts -----------------------------------------------------------
     def rtdir(self):
-        return os.path.join(WORK, "rt", "cpp", sha(runtime_hash("cpp") + "|" + self.toolchain() + "|" + PCH_TEXT)[:16])
+        return os.path.join(WORK, "rt", "cpp", sha(runtime_hash("cpp") + "|" + self.toolchain() + "|" + PCH_TEXT % {"rt": RT})[:16])
 
     def setup(self):
         d = self.rtdir()
@@ -453,11 +462,11 @@ class Cpp(Lang):
             write(os.path.join(tmp, "ready"), "ok\n")
             shutil.rmtree(d, ignore_errors=True)
             os.replace(tmp, d)
-            # the .gch is ~55 MB: keep only the two most recent other builds
+            # the .gch is ~55 MB: keep only the most recent other build
             try:
                 olds = sorted((os.path.getmtime(os.path.join(parent, x)), x) for x in os.listdir(parent)
                               if os.path.isdir(os.path.join(parent, x)) and x != os.path.basename(d))
-                for _, x in olds[:-2]:
+                for _, x in olds[:-1]:
                     shutil.rmtree(os.path.join(parent, x), ignore_errors=True)
             except OSError:
                 pass
@@ -498,7 +507,12 @@ class Cpp(Lang):
         for op in ops:
             if op["pkt"] not in pkts:
                 pkts.append(op["pkt"])
-        src = gen.source(headers, pkts)
+        try:
+            src = gen.source(headers, pkts)
+        except (KeyError, ValueError, IndexError, TypeError) as e:   # a program the generator cannot map: ours, not the emitter's
+            hok, hlog = self._header_check(outdir, headers, scratch)
+            return {"build": {"ok": hok, "log": "" if hok else _errors(hlog)}, "events": [],
+                    "crash": "driver generator failed: %s: %s" % (type(e).__name__, e)}
         drv_cpp = os.path.join(scratch, "cpp_driver.cpp")
         exe = os.path.join(scratch, "cpp_driver")
         write(drv_cpp, src)
@@ -512,7 +526,6 @@ class Cpp(Lang):
             return {"build": {"ok": True, "log": notes}, "events": [],
                     "crash": "generated driver does not compile: " + _errors(r.stdout + r.stderr, 1200)}
         opsfile = os.path.join(scratch, "cpp_ops.json")
-        import json
         write(opsfile, json.dumps({"ops": ops}))
         events, crash = self._drive(exe, opsfile, ops, scratch)
         return {"build": {"ok": True, "log": notes}, "events": events, "crash": crash}
